@@ -220,8 +220,10 @@ Print Assumptions C06_vchain_chain_ok.
 From RV Require Import Zone.ZoneModel Resolver.TransportModel Resolver.RecursiveModel Resolver.RecursiveProofs.
 
 (* only_validated_is_cached.  In the recursive model the cache is changed by nothing but
-   `insert_all` of the records ([nr_rrs]: the RRs of the Answer / CNAME / Delegation variant) of a
-   result of validate_nameserver_response.  Said without instrumenting the model: the cache is an
+   `insert_all` of a PREFIX ([firstn i]) of the records ([nr_rrs]: the RRs of the Answer / CNAME /
+   Delegation variant) of a result of validate_nameserver_response: all of them, unless
+   cut_at_local_authority (fix b2bc3c2) cuts the answer before the first record whose owner an
+   authoritative local zone owns -- then the records before it.  Said without instrumenting the model: the cache is an
    arbitrary type, and EVERY property of caches that such inserts preserve is preserved by a whole
    resolution -- for every oracle, zone set, mode and fuel.  (Instantiating the cache with one that
    records the arguments of insert_all gives the literal statement.)  With C06_filter_sound every
@@ -231,29 +233,51 @@ Theorem C06_only_validated_is_cached :
   forall (cache : Type) (cache_get : cache -> dname -> N -> list rr) (cache_insert_all : cache -> list rr -> cache)
          (sort_names : list dname -> list dname) (zs : zones) (o : oracle) (pmode : protocol_mode) (port : N)
          (P : cache -> Prop),
-  (forall c q resp mc nr, P c -> validate_nameserver_response q resp mc = Ok (Some nr) ->
-                          P (cache_insert_all c (nr_rrs nr))) ->
+  (forall c q resp mc nr i, P c -> validate_nameserver_response q resp mc = Ok (Some nr) ->
+                            P (cache_insert_all c (firstn i (nr_rrs nr)))) ->
   forall fuel q st, P (fst st) ->
   P (fst (snd (resolve_recursive cache cache_get cache_insert_all sort_names zs o pmode port fuel q st))).
 Proof. exact recursive_only_validated_cached. Qed.
 Print Assumptions C06_only_validated_is_cached.
 
 (* the literal reading, on a cache that remembers what was inserted: every argument of insert_all
-   during a resolution is [nr_rrs] of a validated reply *)
+   during a resolution is a prefix of [nr_rrs] of a validated reply (so every record inserted is
+   a record of a validated reply: C06_only_validated_records_cached below) *)
 Theorem C06_only_validated_is_cached_recorded :
   forall (cache : Type) (cache_get : cache -> dname -> N -> list rr) (cache_insert_all : cache -> list rr -> cache)
          (sort_names : list dname -> list dname) (zs : zones) (o : oracle) (pmode : protocol_mode) (port : N)
          fuel q (c : cache) ts,
   let get' (c : cache * list (list rr)) := cache_get (fst c) in
   let ins' (c : cache * list (list rr)) rrs := (cache_insert_all (fst c) rrs, snd c ++ [rrs]) in
-  Forall (fun rrs => exists q' resp mc nr, validate_nameserver_response q' resp mc = Ok (Some nr) /\ rrs = nr_rrs nr)
+  Forall (fun rrs => exists q' resp mc nr i, validate_nameserver_response q' resp mc = Ok (Some nr) /\ rrs = firstn i (nr_rrs nr))
          (snd (fst (snd (resolve_recursive (cache * list (list rr)) get' ins' sort_names zs o pmode port fuel q ((c, []), ts))))).
 Proof.
   intros cache cache_get cache_insert_all sort_names zs o pmode port fuel q c ts get' ins'.
   apply (recursive_only_validated_cached (cache * list (list rr)) get' ins' sort_names zs o pmode port
-           (fun c' => Forall (fun rrs => exists q' resp mc nr, validate_nameserver_response q' resp mc = Ok (Some nr) /\ rrs = nr_rrs nr) (snd c'))).
-  - intros c' q' resp mc nr H Hv. subst ins'. cbn [snd]. apply Forall_app. split; [exact H|].
-    constructor; [|constructor]. exists q', resp, mc, nr. auto.
+           (fun c' => Forall (fun rrs => exists q' resp mc nr i, validate_nameserver_response q' resp mc = Ok (Some nr) /\ rrs = firstn i (nr_rrs nr)) (snd c'))).
+  - intros c' q' resp mc nr i H Hv. subst ins'. cbn [snd]. apply Forall_app. split; [exact H|].
+    constructor; [|constructor]. exists q', resp, mc, nr, i. auto.
   - constructor.
 Qed.
 Print Assumptions C06_only_validated_is_cached_recorded.
+
+(* record by record: every RR given to insert_all during a resolution is one of the records of a
+   result of validate_nameserver_response (hence [allowed], C06_filter_sound) *)
+Theorem C06_only_validated_records_cached :
+  forall (cache : Type) (cache_get : cache -> dname -> N -> list rr) (cache_insert_all : cache -> list rr -> cache)
+         (sort_names : list dname -> list dname) (zs : zones) (o : oracle) (pmode : protocol_mode) (port : N)
+         fuel q (c : cache) ts,
+  let get' (c : cache * list (list rr)) := cache_get (fst c) in
+  let ins' (c : cache * list (list rr)) rrs := (cache_insert_all (fst c) rrs, snd c ++ [rrs]) in
+  forall rrs r,
+    In rrs (snd (fst (snd (resolve_recursive (cache * list (list rr)) get' ins' sort_names zs o pmode port fuel q ((c, []), ts))))) ->
+    In r rrs ->
+    exists q' resp mc nr, validate_nameserver_response q' resp mc = Ok (Some nr) /\ In r (nr_rrs nr).
+Proof.
+  intros cache cache_get cache_insert_all sort_names zs o pmode port fuel q c ts get' ins' rrs r Hin Hr.
+  pose proof (C06_only_validated_is_cached_recorded cache cache_get cache_insert_all sort_names zs o pmode port fuel q c ts) as H.
+  cbv zeta in H. eapply Forall_forall in H; [|exact Hin].
+  destruct H as (q' & resp & mc & nr & i & Hv & ->). exists q', resp, mc, nr. split; [exact Hv|].
+  eapply firstn_incl, Hr.
+Qed.
+Print Assumptions C06_only_validated_records_cached.
